@@ -154,6 +154,8 @@ pub enum ParamSetError {
     /// A _sequence parameter set_ found within the AVC decoder config was not consistent with the
     /// settings of the decoder config itself
     IncompatibleSps(SeqParameterSet),
+    /// A parameter set entry with a length of zero, which cannot hold a NAL header
+    EmptyParamSet,
 }
 
 struct ParamSetIter<'buf>(&'buf [u8], UnitType);
@@ -172,7 +174,10 @@ impl<'buf> Iterator for ParamSetIter<'buf> {
         } else {
             let len = u16::from(self.0[0]) << 8 | u16::from(self.0[1]);
             let data = &self.0[2..];
-            let res = match NalHeader::new(data[0]) {
+            let Some(&header_byte) = data[..len as usize].first() else {
+                return Some(Err(ParamSetError::EmptyParamSet));
+            };
+            let res = match NalHeader::new(header_byte) {
                 Ok(nal_header) => {
                     if nal_header.nal_unit_type() == self.1 {
                         let (data, remainder) = data.split_at(len as usize);
